@@ -1,5 +1,6 @@
 SPECIFICATION ScopeSpec
 CONSTANTS
+  Which = "scope"
   DeepAlpha <- Alpha4
   DeepMax = 2
   WideAlpha <- AlphaAll
@@ -17,4 +18,4 @@ INVARIANT LawTrans
 INVARIANT LawDecoding
 INVARIANT LawSegmentwise
 INVARIANT LawRuleDefault
-POSTCONDITION VisitedScope
+POSTCONDITION Visited
